@@ -96,6 +96,8 @@ func (p *Program) verifyFunction(fn *ssa.Function, fc *FuncContract) (res *FuncR
 					continue
 				}
 				v = Val{Typ: typ, C: iv.C}
+			} else if typ != nil && len(Layout(typ)) > 1 {
+				v = x.zeroVal(typ)
 			} else {
 				v = Val{Typ: typ, C: []*T{x.fresh("ghost_"+g.Name, srt)}}
 			}
